@@ -32,12 +32,12 @@ RELEVANCE = {
     'snap:S':     {'C01', 'C02', 'C13'},
     'snap:R':     {'C02', 'C08', 'C09', 'C13'},
     'order:tick': {'C05'},
-    'order:guard': {'C04', 'C13'},
+    'order:guard': {'C04', 'C13', 'C02'},     # which guards are visited = which states the pending configuration exits/enters
     'order:life': {'C01', 'C02', 'C03', 'C04', 'C08', 'C09'},
     'order:util': {'C12', 'C02'},
     'order:plan': {'C06'},
     'obs':        {'C01', 'C13'},
-    'obs:pend':   {'C13', 'C04'},
+    'obs:pend':   {'C13', 'C04', 'C02'},      # pending masks are read off the request marks the resolution left
     'lists':      {'C04', 'C09', 'C14'},
     'ret:save':   {'C08'},
     'ret:replay': {'C09'},
